@@ -19,7 +19,7 @@ extern "C" __attribute__((used, visibility("default"))) char const* __ubsan_defa
 }
 extern "C" __attribute__((used, visibility("default"))) char const* __tsan_default_options()
 {
-    return "exitcode=77:halt_on_error=0:second_deadlock_stack=1:report_signal_unsafe=0";
+    return "exitcode=77:halt_on_error=1:second_deadlock_stack=1:report_signal_unsafe=0";
 }
 
 static void usage()
